@@ -193,7 +193,12 @@ pub enum Damage {
     /// flip one bit (bit index into the transmitted bytes, LSB of byte 0 is bit 0)
     BitFlip(usize),
     /// burst: xor `pattern` (first and last bit set, `len` bits) starting at wire-order bit `first`
-    Burst { first: usize, len: u32, pattern: u128 },
+    Burst {
+        first: usize,
+        len: u32,
+        #[serde(with = "crate::shape::u128_str")]
+        pattern: u128,
+    },
     ByteSet { pos: usize, val: u8 },
     Multi(Vec<(usize, u8)>),
     Truncate(usize),
